@@ -109,14 +109,14 @@ def run(chk):
         asis = _tlc(chk, "mid_asis", "mid_asis", dump=gdump, workers=1)
     if asis.ok and asis.zero_actions():
         raise Machinery("vacuity: actions never taken: %s" % asis.zero_actions())
-    strict = _tlc(chk, "strict", tier + "_strict", workers=chk.pick(4, 16))
+    strict = _tlc(chk, "strict", tier + "_strict", workers=chk.pick(1, 16))
     fdump = chk.work / "g_filters"
     # per-row form of the filter semantics (every single-handler contents x every filter combination) ...
     filt = _tlc(chk, "filters_rows", "filters_rows", dump=fdump, workers=8)
     if not chk.quick:
         # ... and the same over all two-handler contents
         _tlc(chk, "filters_contents", "filters_thorough", workers=16)
-    kf_stale = _tlc(chk, "kf_stale", "kf_stale", expect="NoStaleFlag")
+    kf_stale = _tlc(chk, "kf_stale", "kf_stale", expect="NoStaleFlag", workers=1)
     kf_dup = None
     menu = [drv.norm_filter(f) for f in _prints(asis if asis.prints else strict, "MENU")]
     lists = _prints(asis if asis.prints else strict, "LISTS")
